@@ -1,5 +1,6 @@
 # Human-written parts of MANIFEST.json, per property.
 ENGINES = [
+    dict(name="E2 structured", path="harness/t_certs, harness/t_msgs, harness/t_codec", serves_properties=["C04", "C05", "C13", "C14"], kind_free_text="grammar-directed rapid generators (vgen) + field-level corruption operators, differential against reference models (vref)"),
     dict(name="E5 arith", path="harness/t_arith", serves_properties=["C08"], kind_free_text="exhaustive loops + rapid generators over big-integer power tables and real tallies"),
 ]
 
@@ -7,6 +8,24 @@ PENDING = "check under construction in this session; will be claimed once its ha
 NOT_APPLICABLE = {("C%02d" % i): PENDING for i in range(1, 21)}
 
 TEXT = {
+    "C04": dict(
+        engine="E2 structured",
+        technique="property-based testing (rapid): grammar-built certificate chains x corruption operators, differential against an independent reference validator; algebraic delta laws",
+        level_text="Generated exploration: honest certificate chains over evolving power tables, one of ~45 corruption operators and a generated validation context per case, compared in both directions (accept iff reference accepts; exact next-instance/chain/table of the valid prefix) with a reference validator written from the statement (own payload encoding, own merkle key, own table CID, own delta application). Delta laws (Make/Apply round trip, canonical form, uniqueness, input immutability) on generated table pairs and near-valid deltas. Sampling is the right level: the input space is unbounded; the evidence lists per-operator counts.",
+        level_note="Trusted base: harness signature scheme vcrypto (unforgeability by construction), reference models in harness/vref, go-bitfield and go-cid libraries. Real BLS is not exercised here. The zero-certificate call is outside the statement and is not asserted.",
+    ),
+    "C05": dict(
+        engine="E2 structured",
+        technique="property-based testing (rapid): message grammar x corruption operators x progress states vs reference validator; stateful histories warm-vs-fresh; -race stress for concurrent validation",
+        level_text="Generated exploration of (message, committee, progress, look-back) against an independent reference validator plus the documented relevance window: accepted => valid; valid and relevant => accepted; valid => never ErrValidationInvalid. History independence: every verdict of a long-lived participant with 1-4 entry caches equals that of a fresh participant for the same input, over generated histories with repeats and forged twins of accepted messages. Concurrent validation from 8-32 goroutines equals sequential verdicts (also built with -race).",
+        level_note="Trusted base: vcrypto, harness/vref message validator. Progress is injected through a build-time accessor that writes only the participant's atomic progression. The Go scheduler is not controlled: the concurrent part is a stress run, not an enumeration of interleavings.",
+    ),
+    "C13": dict(
+        engine="E2 structured",
+        technique="property-based testing (rapid): differential two-stage vs one-shot validation over generated (message, announced key, completing chain, cache history)",
+        level_text="Generated exploration: messages stripped by the production ToPartialGMessage (or un-stripped), announced keys (matching/zero/other/random, optionally re-signed by the sender), completing chains (original/prefix/sibling/foreign/bottom), in generated order on one participant sharing its cache between both paths. Oracle: two-stage accepts iff key == Key(chain) and one-shot validation of the completed message accepts on a fresh participant (soundness only for un-stripped forms); strip+complete round trip is field- and byte-identical.",
+        level_note="Trusted base: vcrypto; one-shot validation as comparison point is itself decided by C05. Completion uses the production inference function through a build-time accessor.",
+    ),
     "C08": dict(
         engine="E5 arith",
         technique="exhaustive enumeration of the 16-bit domain + property-based testing (rapid) against big-integer oracles",
